@@ -317,6 +317,13 @@ func repoOracles(r *Run, focus string, idx int, cfg repoCfg, steps []repoStep, w
 				delete(vouched, loc)
 			}
 		}
+		if o.Kind == "provision" && strings.HasPrefix(st.Obs, "ok") && cfg.Sig == "verify" {
+			// provisioning that succeeds under verify took the configured CRL in under the signers trusted NOW (also when the
+			// list was found on disk after a restart)
+			if d, ok := inForce(o.Loc); ok && !containsInt(o.Cands, d.Signer) {
+				viol("C16", "provision-ok-with-unverifiable-crl sig=verify", fmt.Sprintf("configured CRL at loc %d (#%d signed by %d) is in force after a successful provisioning with trusted signers %v", o.Loc, d.Number, d.Signer, o.Cands))
+			}
+		}
 		if o.Kind == "provision" && strings.HasPrefix(st.Obs, "ok") {
 			if _, ok := inForce(o.Loc); !ok {
 				viol("C16", "provision-ok-but-not-in-force", fmt.Sprintf("configured CRL at loc %d not in force after provisioning succeeded", o.Loc))
